@@ -74,7 +74,7 @@ int main(int argc, char **argv) {
 #ifdef VERIF_SANITIZER
         __sanitizer_set_death_callback(dumpCurrent);
 #endif
-        for (int s : {SIGSEGV, SIGBUS, SIGABRT, SIGFPE, SIGILL})
+        for (int s : {SIGSEGV, SIGBUS, SIGABRT, SIGFPE, SIGILL, SIGALRM})
             signal(s, onSignal);
     }
     std::ofstream rec;
@@ -112,6 +112,7 @@ int main(int argc, char **argv) {
                 size_t n = std::min(s.size(), sizeof g_current - 1);
                 memcpy(g_current, s.data(), n);
                 g_current[n] = 0;
+                alarm(600); // a case that never returns ends the harness with the crash note
             }
             CaseResult r = f->run(c, seed);
             for (auto &x : r.records) {
